@@ -3,6 +3,7 @@
 import itertools
 
 import lib
+from props import C08 as P
 from props import C12 as B
 
 ID = "C13"
@@ -29,11 +30,28 @@ THEOREMS = [
     "Ural.Lru.clean_lruStems",
     "Ural.Props.C12.stems_wellformed",
     "Ural.Props.C12.portSplit_spec",
+    # suffix-aware forward law with suffix_trie.py inside (Props/C13Psl.lean): nothing assumed about split_suffix
+    "Ural.Psl.pslLen_subdomain",
+    "Ural.Props.C13.hostLen_subdomain",
+    "Ural.Props.C13.pslSplit_spec",
+    "Ural.Props.C13.pslSplitT_eq_split",
+    "Ural.Props.C13.splitLaw_psl",
+    "Ural.Props.C13.sameSuffixSplit_of_outside",
+    "Ural.Props.C13.stems_prefix_of_under_sub",
+    "Ural.Props.C13.stems_prefix_of_under_psl",
+    "Ural.Props.C13.lru_prefix_of_under_psl",
+    "Ural.Props.C13.lru_prefix_of_under_psl_string",
+    "Ural.Props.C13.kf_inside_suffix_psl",
+    "Ural.Props.C08.walk_eq_psl",
 ]
+EXTRA_IMPORTS = ["UralModel.Props.C13Psl"]
 TABLE_OBLIGATIONS = [
     "Ural.Props.C12.port_splitter_pattern",
     "Ural.Props.C12.serialized_lru_splitter_pattern",
     "Ural.Props.C12.port_splitter_probes",
+    # the suffix-aware forward theorem now has the C08 model inside: its hand-written is_special_host is
+    # re-checked against the verdicts of the real SPECIAL_HOSTS_RE (regenerated) when Props/C13Psl is built
+    "Ural.Props.C08.special_hosts_probes",
 ]
 RULE = (
     "A case is one URL u against a batch of URLs v (<= 120) and suffix_aware; every ordered pair "
@@ -54,26 +72,51 @@ RULE = (
     "url_to_lru, string prefix of the cleaned serialisation, names-hypothesis. Non-trivial case = "
     "the batch contains a pair with v strictly under u and a pair not under u; distinct = distinct "
     "(u, batch, mode). Pair counts are in the distribution (pairs, pairs-under, pairs-prefix, ...). "
+    "Public-suffix-list families (cases with 'psl', right after the corpus; the corpus goes the same way): from the "
+    "REGENERATED list (ural.tld_data), for EVERY exception rule !e.par (8), EVERY wildcard rule *.par (164) and a "
+    "deterministic sample of the plain ASCII rules (every 60th multi-label / 200th single-label rule + com, co.uk, "
+    "github.io, fr, blogspot.com.au, s3.amazonaws.com; every 6th / 20th in thorough): the ancestors of the rule inside "
+    "the suffix, the wildcard parent, the excepted host, a child, a grandchild and an upper-case spelling of it, a fresh "
+    "sibling under the wildcard (a public suffix itself) with child and grandchild, every label that continues the "
+    "parent in another rule with a child; each host of a family as u (bare) against the whole family (bare and with "
+    "/a?q=1), both modes. For these cases NO answer of the real split_suffix is shipped to the model: op lru_pairs_psl "
+    "computes the stems with the model of suffix_trie.py on the trie built from the regenerated list "
+    "(Lru.pslSplitT) and also returns its split of every host, SameSuffixSplit, outsideSuffixT and dnsName — compared "
+    "with the real split_suffix answer and with the harness's own reading of the list (plain scan of the rules, "
+    "harness/props/C08.py psl_len). "
     "String-level tie (cases of kind 'parse', right after the corpus): EVERY URL a pair can be made of (corpus, "
     "mini universe, the 7,600-URL universe and its 'me@' userinfo variant: about 15,400 URLs, enumerated) goes through "
     "the model's own parser and the string-level pipeline of C12 (ops parse_url, lru_url: urlsplit(ensure_protocol(u)) "
     "+ accessors, lru_stems(u), url_to_lru(u), both modes) and must agree with CPython / ural."
 )
 EXHAUSTIVE = {
-    "quick": "all 82,944 ordered pairs of the 288-URL mini universe (2 schemes x 2 ports x hosts {com, a.com, www.a.com, co.uk, a.co.uk, uk} x paths {'', '/', '/a', '/a/b'} x extras {'', '?q=1', '#f'}) x suffix_aware in {False, True}",
-    "thorough": "all 82,944 ordered pairs of the 288-URL mini universe (as in quick) x suffix_aware in {False, True}; the 7,600-URL universe is sampled (about 3.6 million pairs)",
+    "quick": "all 82,944 ordered pairs of the 288-URL mini universe (2 schemes x 2 ports x hosts {com, a.com, www.a.com, co.uk, a.co.uk, uk} x paths {'', '/', '/a', '/a/b'} x extras {'', '?q=1', '#f'}) x suffix_aware in {False, True}; all ordered host pairs of the family of EVERY exception rule and EVERY wildcard rule of the regenerated public suffix list (and of about 150 plain rules) x {bare, with path and query} x suffix_aware in {False, True}",
+    "thorough": "all 82,944 ordered pairs of the 288-URL mini universe (as in quick) x suffix_aware in {False, True}; the public-suffix-list families as in quick with about 1,500 plain rules; the 7,600-URL universe is sampled (about 3.6 million pairs)",
 }
-TRUSTED = B.TRUSTED
+TRUSTED = [
+    t
+    if not t.startswith("split_suffix (public-suffix trie")
+    else "split_suffix: an abstract parameter of the theorems of Props/C13.lean (the driver op lru_pairs uses the answer of the "
+    "real split_suffix shipped with each case); for the suffix-aware forward law (Props/C13Psl.lean) it is the hand-written "
+    "Lean model of ural/classes/suffix_trie.py (Model/SuffixTrie.lean, proved equal to the publicsuffix.org algorithm over "
+    "the rule list: C08.walk_eq_psl) on the list regenerated from ural.tld_data — tied to the real split_suffix on every "
+    "host of the corpus and of the public-suffix-list families of this run (op lru_pairs_psl, nothing shipped)"
+    for t in B.TRUSTED
+]
 ASSUMPTIONS = [
-    "C08 clause used as hypothesis (SplitLaw): split_suffix parts re-join to the lower-cased host; checked on every URL of this run",
-    "reading: 'subdomain' = whole-label suffix of the dotted host between DNS names (an IPv4 literal / bracketed literal has no subdomains: hypothesis NamesOrEqual); 'extends / may add' presuppose that u has nothing later in the hierarchy host -> path -> query -> fragment; the forward law is demanded for u without userinfo (userinfo stems come last; the quantifier's universe has none); empty path stems aside = clean_trailing_path on both sides; suffix-aware converse compares hosts lower-cased",
+    "C08 clause used as hypothesis (SplitLaw) by the theorems with an abstract split_suffix: its parts re-join to the lower-cased host; checked on every URL of this run. The *_psl theorems assume nothing about split_suffix (it is the model of suffix_trie.py on the regenerated list: splitLaw_psl, sameSuffixSplit_of_outside); what ties them to the code is the per-run obligation that the real split_suffix answers like that model on every host of the public-suffix-list families and of the corpus (op lru_pairs_psl, a disagreement is a broken correspondence)",
+    "reading: 'subdomain' = whole-label suffix of the dotted host between DNS names (an IPv4 literal / bracketed literal has no subdomains: hypothesis NamesOrEqual); 'extends / may add' presuppose that u has nothing later in the hierarchy host -> path -> query -> fragment; the forward law is demanded for u without userinfo (userinfo stems come last; the quantifier's universe has none); empty path stems aside = clean_trailing_path on both sides; suffix-aware converse compares hosts lower-cased; 'DNS name', 'IP literal' and 'public suffix' are read by the oracle independently of ural (narrow special-host definition and the publicsuffix.org algorithm scanned over the regenerated list, harness/props/C08.py), never from is_special_host / split_suffix",
 ]
 UNPROVED = (
     "the *_string theorems state the laws for URL strings with the modelled parser inside (the Lean parser is compared "
-    "with CPython on every URL of the universe, not proved equal to it); forward direction with suffix_aware=True when the two hosts do not have the same public-suffix split "
-    "(ancestor inside the public suffix, e.g. http://uk vs http://a.co.uk): false by design (theorem "
-    "fullForwardSuffixAware_false, known finding KF-C13-1); the region is counted in the distribution as "
-    "'pairs-kf-region' and explored by the oracle only for the converse"
+    "with CPython on every URL of the universe, not proved equal to it); forward direction with suffix_aware=True when the ancestor's host lies INSIDE the public suffix of the "
+    "descendant's host and the two public suffixes differ (http://uk vs http://a.co.uk; http://kawasaki.jp vs "
+    "http://city.kawasaki.jp): false by design (theorems fullForwardSuffixAware_false, kf_inside_suffix_psl, known "
+    "finding KF-C13-1). The region is delimited by the public suffix LIST (outsideSuffixT / SameSuffixSplit of the "
+    "model of suffix_trie.py in Lean, the publicsuffix.org algorithm scanned over the regenerated list in the oracle), "
+    "not by the answers of the implementation's split_suffix; outside of it the law is proved "
+    "(stems_prefix_of_under_psl: DNS names without leading / trailing dot and without '%') and demanded by the oracle. "
+    "It is counted in the distribution as 'pairs-kf-region' and explored by the oracle only for the converse"
 )
 
 SCHEMES = ["http", "https"]
@@ -154,6 +197,110 @@ CORPUS = [
 ]
 
 
+# --------------------------------------------------------------------------------------
+# host families derived from the regenerated public suffix list (every exception rule, every
+# wildcard rule, a sample of the plain rules): ancestors and non-ancestors around each rule
+# --------------------------------------------------------------------------------------
+FRESH = "zq"  # a label that starts no rule of the list below any parent used here
+PLAIN_ALWAYS = ["com", "co.uk", "github.io", "fr", "blogspot.com.au", "s3.amazonaws.com"]
+
+
+def _suffixes(labels):
+    return [".".join(labels[i:]) for i in range(len(labels) - 1, 0, -1)]
+
+
+def _dedup(xs):
+    out = []
+    for x in xs:
+        if x and x not in out:
+            out.append(x)
+    return out
+
+
+def exception_family(rule, idx):
+    """!e.par : the ancestors of par, par (the wildcard parent), the excepted host e.par, a child, a
+    grandchild, an upper-case spelling of the child, a sibling s.par under the wildcard (a public suffix
+    itself), a child and a grandchild of the sibling, the other labels that continue par in some rule"""
+    labels = rule[1:].split(".")
+    e, par = labels[0], ".".join(labels[1:])
+    exc = e + "." + par
+    sib = FRESH + "." + par
+    hosts = _suffixes(labels[1:]) + [par, exc, "www." + exc, "x.www." + exc, "WWW." + exc.title(), sib, "a." + sib, "b.a." + sib]
+    for k in sorted(idx.kids.get(tuple(labels[1:]), ()))[:4]:
+        if k not in ("*", e) and not k.startswith("!"):
+            hosts += [k + "." + par, "a." + k + "." + par]
+    return _dedup(hosts)
+
+
+def wildcard_family(rule, idx):
+    """*.par : the ancestors of par, par, a fresh instance s.par (a public suffix), a child (the
+    registrable domain), a grandchild; every label that continues par in another rule (explicit sibling
+    of the wildcard, excepted label) with a child"""
+    labels = rule.split(".")
+    inst = [FRESH if l == "*" else l for l in labels]
+    par = ".".join(inst[1:])
+    hosts = _suffixes(inst[1:]) + [par, ".".join(inst), "a." + ".".join(inst), "b.a." + ".".join(inst)]
+    for k in sorted(idx.kids.get(tuple(labels[1:]), ()))[:4]:
+        if k != "*":
+            k = k.lstrip("!")
+            hosts += [k + "." + par, "a." + k + "." + par]
+    return _dedup(hosts)
+
+
+def plain_family(rule):
+    """r : its ancestors (suffixes inside the public suffix), r, a domain, a subdomain, a sub-subdomain"""
+    labels = rule.split(".")
+    return _dedup(_suffixes(labels) + [rule, "a." + rule, "b.a." + rule, "c.b.a." + rule])
+
+
+_psl_memo = {}
+
+
+def psl_families(tier):
+    """[(kind, rule, hosts)] — every exception rule, every wildcard rule, a deterministic sample of the
+    plain ASCII rules (every k-th, k from the tier, multi-label rules first) plus a few fixed ones"""
+    if tier in _psl_memo:
+        return _psl_memo[tier]
+    t = P.T()
+    rules, idx = t["rules"], t["index"]
+    fams = []
+    for r in rules:
+        if r.startswith("!") and r.isascii():
+            fams.append(("exc", r, exception_family(r, idx)))
+    for r in rules:
+        if "*" in r and not r.startswith("!") and r.isascii():
+            fams.append(("wild", r, wildcard_family(r, idx)))
+    # (the bundled list has a line with a trailing dot, `xn--4dbgdty6c.xn--4dbrk0ce.`: no hostname can match it,
+    # and a host spelled with a trailing dot is outside the suffix-aware theorems — dnsName)
+    plain = [r for r in rules if r.isascii() and "*" not in r and not r.startswith("!") and "" not in r.split(".")]
+    multi = [r for r in plain if "." in r]
+    step_m, step_s = (60, 200) if tier == "quick" else (6, 20)
+    picked = [r for r in PLAIN_ALWAYS if r in plain] + multi[::step_m] + [r for r in plain if "." not in r][::step_s]
+    for r in _dedup(picked):
+        fams.append(("plain", r, plain_family(r)))
+    _psl_memo[tier] = fams
+    return fams
+
+
+def psl_cases(tier):
+    """one case per (family, u in family, mode): u bare (so that subdomains can lie under it) against the
+    whole family, each host bare and with a path + query"""
+    # (all suffix-aware cases first: only they need the suffix list inside the driver, and the stream is cut
+    # into contiguous chunks, one driver process each)
+    for sa in (True, False):
+        for kind, rule, hosts in psl_families(tier):
+            vs = ["http://" + h for h in hosts] + ["http://" + h + "/a?q=1" for h in hosts]
+            for h in hosts:
+                yield {"u": "http://" + h, "vs": vs, "sa": sa, "psl": kind, "rule": rule}
+
+
+def psl_urls(tier):
+    for kind, rule, hosts in psl_families(tier):
+        for h in hosts:
+            yield "http://" + h
+            yield "http://" + h + "/a?q=1"
+
+
 def universe_url(rng):
     return rng.choice(SCHEMES) + "://" + rng.choice(HOSTS) + rng.choice(PORTS) + rng.choice(PATHS) + rng.choice(EXTRAS)
 
@@ -176,10 +323,18 @@ def near(rng, s, h, p, path, extra):
     return s + "://" + auth + h2 + p + path2 + extra2
 
 
-def universe_urls():
-    """every URL a pair of the stream can be made of: corpus, mini universe, the 7,600-URL universe,
-    and the userinfo variant `near` draws"""
+def universe_urls(tier="quick"):
+    """every URL a pair of the stream can be made of: corpus, the hosts of the public-suffix-list
+    families (exception families; the wildcard and the sampled plain ones too in the thorough tier), mini
+    universe, the 7,600-URL universe, and the userinfo variant `near` draws"""
     seen = set()
+    for kind, rule, hosts in psl_families(tier):
+        if kind == "exc" or tier != "quick":
+            for h in hosts:
+                x = "http://" + h
+                if x not in seen:
+                    seen.add(x)
+                    yield x
     for c in CORPUS:
         for x in [c["u"]] + list(c["vs"]):
             if x not in seen:
@@ -203,11 +358,16 @@ def universe_urls():
 
 def cases(rng, tier):
     for c in CORPUS:
-        yield dict(c)
+        # the corpus goes through the model with its own public-suffix split (op lru_pairs_psl)
+        yield dict(c, psl="corpus")
+    # host families around every exception / wildcard rule and a sample of the plain rules of the
+    # regenerated list, both modes; the model computes the split itself from the list
+    for c in psl_cases(tier):
+        yield c
     # string-level tie: the model's own parser (+ lru_stems / url_to_lru as functions of the string)
     # against CPython / ural on every URL of the universe
     batch = []
-    for x in universe_urls():
+    for x in universe_urls(tier):
         batch.append(x)
         if len(batch) == 40:
             yield {"k": "parse", "urls": batch}
@@ -274,6 +434,15 @@ def label_host(h):
     return (not (h.startswith("[") or bool(is_special_host(h)))) or ("." not in h)
 
 
+def names_host(h):
+    """the oracle's own reading of "a DNS name, or a host without any dot" (hypothesis NamesOrEqual): not
+    bracketed, not `localhost` / a dotted quad by the oracle's narrow definition (harness/props/C08.py) —
+    independent of ural's is_special_host, whose verdicts `label_host` above mirrors for the comparison with
+    the model only (a SPECIAL_HOSTS_RE that takes `fab.de` for an IP literal must not move the pair out of
+    the oracle's reach: seed C13-3)"""
+    return (not (h.startswith("[") or P.oracle_special(h))) or ("." not in h)
+
+
 def no_userinfo(netloc):
     u, w = B.userinfo_of(netloc)
     return u == "" and w == ""
@@ -310,7 +479,17 @@ def _parse_plan(case):
 
 
 def canon(op, out):
+    if op.get("f") == "lru_pairs_psl" and isinstance(out, dict) and "rows" in out:
+        # `outside` is compared on DNS names only (the theorem uses it there; elsewhere the two notions of
+        # "special host" — is_special_host on .hostname vs the oracle's narrow one — need not agree)
+        return {"u_split": out.get("u_split"), "rows": [r[:8] + [bool(r[8]) and bool(r[9])] + r[9:] for r in out["rows"]]}
     return B.canon(op, out)
+
+
+def _psl_op(case):
+    """suffix-aware cases of the corpus / of the public-suffix-list families go through the model with its own
+    split (op lru_pairs_psl); with suffix_aware=False split_suffix is not consulted: op lru_pairs"""
+    return bool(case.get("psl")) and bool(case.get("sa"))
 
 
 def ops(case):
@@ -324,7 +503,11 @@ def ops(case):
         pv = B.cparse(v)
         if pv is None:
             return []
-        vs.append(B.parts_json(pv[0], pv[1]))
+        vs.append(B.parts_json(pv[0], None if _psl_op(case) else pv[1]))
+    if _psl_op(case):
+        # no answer of the real split_suffix is shipped: the model splits with its own trie, built from
+        # the regenerated list (the file is content-addressed and memoised by the driver)
+        return [{"f": "lru_pairs_psl", "rules_file": P.T()["path"], "sa": case["sa"], "u": B.parts_json(pu[0], None), "vs": vs}]
     return [{"f": "lru_pairs", "sa": case["sa"], "u": B.parts_json(pu[0], pu[1]), "vs": vs}]
 
 
@@ -339,20 +522,29 @@ def impl(case):
     su, cu, lu, lcu = stems_of(case["u"], sa)
     out = []
     hu = spec_host_port(A[1])[0]
+    psl = _psl_op(case)
     for v in case["vs"]:
-        V = B.cparse(v)[0]
+        pv = B.cparse(v)
+        V = pv[0]
+        hv = spec_host_port(V[1])[0]
         sv, cv, lv, lcv = stems_of(v, sa)
-        out.append(
-            [
-                under_by(ident, A, V),
-                under_by(B.ascii_lower, A, V),
-                is_prefix(cu, cv),
-                is_prefix(su, sv),
-                lv.startswith(lu),
-                lcv.startswith(lcu),
-                label_host(hu) and label_host(spec_host_port(V[1])[0]),
-            ]
-        )
+        row = [
+            under_by(ident, A, V),
+            under_by(B.ascii_lower, A, V),
+            is_prefix(cu, cv),
+            is_prefix(su, sv),
+            lv.startswith(lu),
+            lcv.startswith(lcu),
+            label_host(hu) and label_host(hv),
+        ]
+        if psl:
+            # hypotheses of stems_prefix_of_under_psl, read independently from the regenerated list, and
+            # the answer of the REAL split_suffix for v's host (the model computed its own)
+            dns = dns_name(hu) and dns_name(hv)
+            row += [list_same_suffix(hu, hv), dns and list_outside(hu, hv), dns, host_split(pv)]
+        out.append(row)
+    if psl:
+        return [{"u_split": host_split(pu), "rows": out}]
     return [out]
 
 
@@ -373,13 +565,62 @@ def split_law_ok(pr):
     return (s if d == "" else d + "." + s) == B.ascii_lower(spec_host_port(A[1])[0])
 
 
-def same_suffix_split(su, sv):
-    if su is None or sv is None:
-        return su is None and sv is None
-    return su[1] == sv[1]
+# --------------------------------------------------------------------------------------
+# the public suffix of a host according to the LIST (ural.tld_data, regenerated), by a plain scan of
+# the rules (harness/props/C08.py: psl_len — no trie, no ural function): what delimits the region of
+# the known finding KF-C13-1.  It used to be read off the answers of the real split_suffix, so a
+# split_suffix that mis-splits a subdomain moved the pair into the excluded region (seed C13-4).
+# --------------------------------------------------------------------------------------
+_list_memo = {}
 
 
-KF_MARK = "[ancestor inside the public suffix: the two hosts do not have the same split_suffix]"
+def list_split(host):
+    """None, or (number of labels of the host, domain, public suffix) by the publicsuffix.org algorithm
+    over the regenerated rule list; a bracketed literal / special host / empty host has none"""
+    r = _list_memo.get(host, 0)
+    if r != 0:
+        return r
+    if len(_list_memo) > 100000:
+        _list_memo.clear()
+    r = None
+    if host and not host.startswith("[") and not P.oracle_special(host):
+        labels = B.ascii_lower(host).rstrip(".").split(".")
+        n = P.T()["index"].len(labels)
+        if n:
+            r = (len(labels), ".".join(labels[: len(labels) - n]), ".".join(labels[len(labels) - n :]))
+    _list_memo[host] = r
+    return r
+
+
+def list_same_suffix(hu, hv):
+    """both hosts have the same public suffix by the list, or none has one"""
+    a, b = list_split(hu), list_split(hv)
+    if a is None or b is None:
+        return a is None and b is None
+    return a[2] == b[2]
+
+
+def list_outside(hu, hv):
+    """u's host lies outside v's public suffix (by the list): v's public suffix, if any, has fewer
+    labels than u's host; neither is a special host"""
+    if P.oracle_special(hu) or P.oracle_special(hv) or hu.startswith("[") or hv.startswith("["):
+        return False
+    b = list_split(hv)
+    nu = len(B.ascii_lower(hu).rstrip(".").split("."))
+    return b is None or len(b[2].split(".")) < nu
+
+
+def dns_name(h):
+    return not any(c in h for c in ":[]%") and not h.startswith(".") and not h.endswith(".")
+
+
+def forward_demanded(hu, hv):
+    """suffix-aware mode: is the pair outside the region of KF-C13-1 ("the ancestor lies inside the
+    public suffix of the descendant and the two public suffixes differ")?  Decided from the list."""
+    return hu == hv or list_same_suffix(hu, hv) or (dns_name(hu) and dns_name(hv) and list_outside(hu, hv))
+
+
+KF_MARK = "[ancestor inside the public suffix: by the public suffix list the two hosts do not have the same suffix]"
 
 
 def pair_verdict(case, v):
@@ -411,8 +652,8 @@ def pair_verdict(case, v):
     pre = is_prefix(cu, cv)
     hu, hv = spec_host_port(A[1])[0], spec_host_port(V[1])[0]
     # forward
-    if under_by(ident, A, V) and (hu == hv or (label_host(hu) and label_host(hv))):
-        if sa and not same_suffix_split(host_split(pu), host_split(pv)):
+    if under_by(ident, A, V) and (hu == hv or (names_host(hu) and names_host(hv))):
+        if sa and not forward_demanded(hu, hv):
             if case.get("strict") and not pre:
                 return "forward: %s lies under %s but stems %r are not a prefix of %r %s" % (v, case["u"], cu, cv, KF_MARK)
         elif not pre:
@@ -456,7 +697,7 @@ def _pair_stats_(case):
     if pu is None:
         return None
     A, spu = pu
-    st = {"pairs": 0, "under": 0, "strict-under": 0, "prefix": 0, "not-under": 0, "kf": 0, "subdomain": 0}
+    st = {"pairs": 0, "under": 0, "strict-under": 0, "prefix": 0, "not-under": 0, "kf": 0, "subdomain": 0, "sub-sa": 0}
     cu = stems_of(case["u"], case["sa"])[1]
     for v in case["vs"]:
         pv = B.cparse(v)
@@ -471,8 +712,10 @@ def _pair_stats_(case):
                 st["strict-under"] += 1
             if spec_host_port(A[1])[0] != spec_host_port(V[1])[0]:
                 st["subdomain"] += 1
-            if case["sa"] and not same_suffix_split(host_split(pu), host_split(pv)):
+            if case["sa"] and not forward_demanded(spec_host_port(A[1])[0], spec_host_port(V[1])[0]):
                 st["kf"] += 1
+            elif case["sa"] and spec_host_port(A[1])[0] != spec_host_port(V[1])[0]:
+                st["sub-sa"] += 1
         else:
             st["not-under"] += 1
         if is_prefix(cu, stems_of(v, case["sa"])[1]):
@@ -499,6 +742,8 @@ def classify(case):
         return labs
     st = _pair_stats(case)
     labs = ["sa=%d" % case["sa"]]
+    if case.get("psl"):
+        labs.append("kind=psl:" + case["psl"])
     if st is None:
         return labs + ["urlsplit-ValueError"]
     labs += ["pairs"] * st["pairs"]
@@ -508,4 +753,5 @@ def classify(case):
     labs += ["pairs-not-under"] * st["not-under"]
     labs += ["pairs-stem-prefix"] * st["prefix"]
     labs += ["pairs-kf-region"] * st["kf"]
+    labs += ["pairs-under-subdomain-sa-demanded"] * st["sub-sa"]
     return labs
